@@ -81,6 +81,11 @@ class Index:
 
 
 @dataclasses.dataclass
+class Tup:
+    items: list  # right-hand side of a parallel assignment "a, b = e1, e2" (all evaluated before any target is bound)
+
+
+@dataclasses.dataclass
 class Assign:
     targets: list
     expr: object
@@ -161,6 +166,8 @@ def expr_src(e):
         return f"{e.fname}({', '.join(parts)})"
     if isinstance(e, Index):
         return f"{expr_src(e.base)}[{e.idx}]"
+    if isinstance(e, Tup):
+        return ", ".join(expr_src(x) for x in e.items)
     raise TypeError(e)
 
 
@@ -273,6 +280,8 @@ class Interp:
             args = [self.tensor_for_param(self.ev(a, env), callee, i) for i, a in enumerate(e.args)]
             res = Interp(callee, self.registry).run(args, dict(e.attrs))
             return res[0] if len(res) == 1 else tuple(res)
+        if isinstance(e, Tup):
+            return tuple(self.tensor(self.ev(x, env)) for x in e.items)
         if isinstance(e, Index):
             base = self.tensor(self.ev(e.base, env))
             return np.asarray(eval(f"base[{e.idx}]", {"base": base, **{k: v for k, v in env.items()}}))  # noqa: S307
@@ -1027,11 +1036,35 @@ class SGen:
         env.update(work)
         return r
 
+    def gen_parallel_assign(self, env):
+        """`a, b = b, a` / `a, b = b, a + b`: Python evaluates both right-hand sides before it binds either target."""
+        names = [n for n, v in env.items() if isinstance(v, np.ndarray) and n not in self.frozen and v.dtype not in (np.bool_, np.int32)]
+        pairs = [(a, b) for a in names for b in names if a < b and env[a].dtype == env[b].dtype and env[a].shape == env[b].shape]
+        if not pairs:
+            return None
+        a, b = self.pick(pairs)
+        second = Var(a) if self.chance(5) else Bin(self.pick(["+", "-"]), Var(a), Var(b))
+        st_ = Assign([a, b], Tup([Var(b), second]))
+        it = self.interp()
+        trial = dict(env)
+        try:
+            with np.errstate(all="ignore"):
+                it.stmt(st_, trial)
+        except (InterpError, KeyError, ValueError, TypeError):
+            return None
+        if any(trial[n].dtype.kind == "f" and trial[n].size and not np.all(np.isfinite(trial[n])) for n in (a, b)):
+            return None
+        env.update({a: trial[a], b: trial[b]})
+        self.feats.add("parallel_assign")
+        return st_
+
     def gen_body(self, n_stmts):
         body = []
         for _ in range(n_stmts):
-            k = self.pick(["assign", "assign", "assign", "compound", "compound"])
-            if k == "assign":
+            k = self.pick(["assign", "assign", "assign", "compound", "compound", "parallel"])
+            if k == "parallel":
+                s = self.gen_parallel_assign(self.env) or self.gen_assign(self.env)
+            elif k == "assign":
                 s = self.gen_assign(self.env)
             else:
                 s = self.gen_compound(self.env)
@@ -1254,6 +1287,9 @@ def _used_helpers(stmts):
             walk_e(e.operand)
         elif isinstance(e, Call):
             for a in e.args:
+                walk_e(a)
+        elif isinstance(e, Tup):
+            for a in e.items:
                 walk_e(a)
 
     def walk(ss):
